@@ -25,6 +25,11 @@ NIsMax(n)   == n = NReserved
 NInc(n)     == CASE n[1] = "lo"  -> NLo(n[2] + 1)
                  [] n[1] = "top" -> NTop(n[2] - 1)            \* never applied to NReserved
                  [] n[1] = "pow" -> <<"pow", n[2], n[3] + 1>>
+                 [] n[1] = "mid" -> \* four 16-bit limbs (trace validation): add one with carry
+                      IF n[5] < 65535 THEN <<"mid", n[2], n[3], n[4], n[5] + 1>>
+                      ELSE IF n[4] < 65535 THEN <<"mid", n[2], n[3], n[4] + 1, 0>>
+                      ELSE IF n[3] < 65535 THEN <<"mid", n[2], n[3] + 1, 0, 0>>
+                      ELSE <<"mid", n[2] + 1, 0, 0, 0>>
 
 (* ---- protocol instance ------------------------------------------------ *)
 (* pp = [pat, psks, publen, initpad, validates]                           *)
